@@ -348,7 +348,7 @@ def run(ctx):
             if ctx.enough():
                 return
         ctx.count("systematic_crossing_scripts", len(fam))
-    for i in range(ctx.budget(1500, 300000)):
+    for i in range(ctx.budget(1500, 2000000)):
         steps = run_history(ctx, rng, i)
         if i < 2:
             ctx.sample({"history": [list(s) for s in steps]})
